@@ -47,6 +47,10 @@ PROPS = {
     'C09': dict(engine='pair', pool='f', modes=['fung'], witness=False, witness_ops=['fung', 'dec'], values=(4, 40)),
     # the model dispatcher's result on a request is, by C14_call / C14_unbound / C14_bad_arguments, the required one
     'C14': dict(engine='single', name='rpc', builder='build_rpc', runs=[['--mode', 'rpc']], witness=True),
+    # C19: static-storage inventory (the model's product-state assumption) + concurrent runs under ThreadSanitizer
+    'C19': dict(witness=False, witness_ops=['tl'], stages=[
+        dict(engine='statics'),
+        dict(engine='single', name='thread', builder='build_thread', runs=[['--mode', 'threads']], shards=8)]),
     'C15': dict(witness=False, stages=[
         dict(engine='codec', pool='h', modes=['handles'], values=(6, 60), witness_ops=['enc']),
         dict(engine='single', name='life', source='life_main.cpp', runs=[['--mode', 'uh']])]),
@@ -169,6 +173,8 @@ class Run:
                 self.util_stage()
             elif eng == 'single':
                 self.single_stage()
+            elif eng == 'statics':
+                self.statics_stage()
             else:
                 raise nv.BuildError('unknown engine ' + eng, '')
         self.cfg = top
@@ -194,6 +200,19 @@ class Run:
         self.cov['distinct_nontrivial'] = self.cov.get('distinct_nontrivial', 0) + len(distinct)
         self.cov['rule'] = ('each evaluation is one call sequence / input executed on the real library and on the Lean model and '
                             'compared; distinct = distinct operation lines (every sequence contains at least one primitive call)')
+
+    def statics_stage(self):
+        import statics
+        inv, unexpected, missing = statics.compare()
+        self.cov['static_storage_inventory'] = inv
+        self.cov['evaluations'] = self.cov.get('evaluations', 0) + 1
+        self.cov['distinct_nontrivial'] = self.cov.get('distinct_nontrivial', 0) + 1
+        for d in unexpected:
+            self.violations.append(dict(what='static-storage inventory: mutable static/thread storage not in the model: %s:%d `%s`' % (d['file'], d['line'], d['decl']),
+                                        input={'declaration': d, 'meaning': 'state shared by every thread (or by every object) that the product-state model of C19 does not have'}))
+        for d in missing:
+            self.violations.append(dict(what='static-storage inventory: the thread_local storage the ThreadLocal model is built on is gone: %s `%s`' % (d['file'], d['decl']),
+                                        input=None, detail=d))
 
     def single_stage(self):
         if self.cfg.get('builder'):
